@@ -165,8 +165,14 @@ func (d *DKG) StoreDeal(participant string, deal *dkg.Deal) {
 	d.deals[participant] = deal
 }
 
-func (d *DKG) ProcessDeals() ([]*dkg.Response, error) {
-	responses := make([]*dkg.Response, 0)
+func (d *DKG) ProcessDeals() (responses []*dkg.Response, err error) {
+	// kyber panics on some malformed deals (wrong nonce length, missing share): refuse them instead of crashing
+	defer func() {
+		if r := recover(); r != nil {
+			responses, err = nil, fmt.Errorf("malformed deal: %v", r)
+		}
+	}()
+	responses = make([]*dkg.Response, 0)
 
 	// d.deals is a map: process the deals in a fixed order (by dealer index), so that
 	// a replayed round signs the same responses with the same nonces of the seeded suite.
